@@ -221,6 +221,12 @@ class Program:
             c = [b for sg, b in cands if sg[-min(len(sg), len(segs)):] == segs[-min(len(sg), len(segs)):]]
         if len(c) == 1:
             return c[0]
+        # a fn item nested in a method (`Type::method::helper`): the body is named `<impl at ..>::method::helper`
+        if len(segs) >= 2:
+            tail = '::' + '::'.join(segs[-2:])
+            c = [b for n, b in self.bodies.items() if n.endswith(tail) and len(b.params) == info.get('nargs', len(b.params))]
+            if len(c) == 1:
+                return c[0]
         return None
 
 
@@ -343,7 +349,8 @@ class Exec:
         (a partition of the path space for parallel workers); default the whole space."""
         self.queue = [list(p) for p in start] if start else [[]]
         out = []
-        while self.queue:
+        self.stop = False          # set by on_end: enough seen (a counterexample was found), skip the remaining paths
+        while self.queue and not self.stop:
             if self.stats.paths >= self.max_paths:
                 raise Inconclusive('path budget exhausted')
             self.forced = self.queue.pop()
@@ -533,8 +540,14 @@ class Exec:
                 raise Inconclusive('no body for closure %s' % f.ty)
             p1 = body.params[0][1].strip()
             if p1.startswith('&'):
-                c = Cell(f)
-                return self.call_body(body, [Ref(c, ())] + list(args))
+                # a closure VALUE called through `&mut self`: what it captured persists between the calls an adaptor makes
+                # (`iter.map(move |x| { state.next() .. })`): one cell per closure value on this path
+                cells = self.env.setdefault('closure_cells', {})
+                ent = cells.get(id(f))
+                if ent is None or ent[0] is not f:
+                    ent = (f, Cell(f))
+                    cells[id(f)] = ent
+                return self.call_body(body, [Ref(ent[1], ())] + list(args))
             return self.call_body(body, [f] + list(args))
         if isinstance(f, FnItem):
             return self.call_named(f.text, list(args), None)
